@@ -2,3 +2,4 @@ import EqsigVerif.Prelude.Np
 import EqsigVerif.Prelude.Wire
 import EqsigVerif.Model.Displacements
 import EqsigVerif.Handlers.All
+import EqsigVerif.Model.Peaks
